@@ -925,6 +925,7 @@ def run(check: core.Check) -> None:
     _sensitivity("DefShapes", "DefShapes.strict.cfg", "ShapeViewsAgreeStrict")
     _sensitivity("DefShapes", "DefShapes.bugbound.cfg", "ShapeViewsAgree")
     _sensitivity("DefShapes", "DefShapes.bugasyncgen.cfg", "ShapeViewsAgree")
+    _sensitivity("DefShapes", "DefShapes.oldasyncgen.cfg", "CallAwaitableAgrees")     # the behaviour before repo b243661
     _sensitivity("DefHeaders", "DefHeaders.defaultsequal.cfg", "HeaderDefaultsEqual")
     run_shapes(check, quick, rnd)
     check.cov["sensitivity_runs"] = _sensitivity_join()
@@ -941,7 +942,7 @@ def run(check: core.Check) -> None:
         "__forward_value__) CtxIndependent and CtxDeclaringModule are violated, with BugFallbackAnyModule (an undefined name "
         "taken from any module that defines it) CtxDeclaringModule, and NeverForeignCell is violated (some history does leave "
         "the other module's class on a shared ForwardRef); shape slice: ShapeViewsAgreeStrict (the declared-Callable "
-        "deviation is real), BugBoundKeepsFirst, BugAsyncGenWrapped violate ShapeViewsAgree, HeaderDefaultsEqual is violated "
+        "deviation is real), BugBoundKeepsFirst, BugAsyncGenWrapped violate ShapeViewsAgree, FixedAsyncGenInferred = FALSE (the code before repo b243661) violates CallAwaitableAgrees, HeaderDefaultsEqual is violated "
         "by call / lambda defaults; corrupted real observations of every new clause are flagged (--selftest-binding)"
     )
     check.cov["rule"] = (
@@ -1031,6 +1032,19 @@ def selftest_binding(check: core.Check) -> None:
     sbad3 = json.loads(json.dumps(so))
     sbad3["calls"][0]["impcls"]["codes"] = ["made_up"]
     v10, _ = _adjudicate("DefShapesTrace", "DefShapesTrace.cfg", [sbad3])
+    # an unannotated async generator: the defining module reports missing_await / Coroutine again (repo b243661 undone)
+    gh = dict(sh, ret={"k": "noann", "id": "", "args": []}, isasync=True)
+    (go,) = c13_shapes.observe_shapes((0, [{"h": gh, "shape": "generator", "calls": calls}]))
+    go = _strip_shape_obs(go)
+    ggood, _ = _adjudicate("DefShapesTrace", "DefShapesTrace.cfg", [go])
+    gbad = json.loads(json.dumps(go))
+    coro = V("Generic", "Coroutine", [V("Any", "inference"), V("Any", "inference"), V("Any", "inference")])
+    for ctx in ("nested", "defmod"):
+        gbad["calls"][0][ctx] = {"codes": sorted(gbad["calls"][0][ctx]["codes"] + ["missing_await"]), "ret": coro}
+    v11, _ = _adjudicate("DefShapesTrace", "DefShapesTrace.cfg", [gbad])
+    print("shape: async generator awaited ->", ggood, v11)
+    if ggood or not ({"viol:AwaitableIffCoroutine#1", "viol:CallJudgedIdentically#1"} <= set(v11.get(0, []))):
+        raise core.MachineryError("binding self-test failed: the repaired async-generator defect is not flagged as a violation")
     print("uncorrupted:", good, hgood, cgood, sgood)
     print("context: B's sig route -> A.K  ->", v5)
     print("context: cell state corrupted  ->", v6)
